@@ -47,7 +47,7 @@ func init() {
 			"against the standard-library verifier. non-trivial = tuple inside the asserted domain (claimed algorithm of the key's family, DSA hash not longer than q); " +
 			"distinct by (algorithm, key, message, signer, mutation). create leg: CreateCertificate / CreateCertificateRequest / CreateCRL / CreateRevocationList / ocsp.CreateResponse × " +
 			"SignatureAlgorithm 0..16 × RSA, ECDSA P-224..P-521, Ed25519 signer keys; non-trivial = the API accepted the pair (object created)",
-		MinNontrivial:         40000,
+		MinNontrivial:         27000,
 		MinNontrivialThorough: 400000,
 		Shards:                16,
 		Env:                   []string{"GODEBUG=rsa1024min=0"},
@@ -418,7 +418,7 @@ func runC03(c *core.Ctx) {
 	var bases []baseCase
 	keysPer := c.Pick(2, 8)
 	msgClasses := c.Pick(3, 4)
-	reps := c.Pick(1, 5)
+	reps := c.Pick(1, 2)
 	for _, a := range algTable {
 		if !a.Usable {
 			continue
